@@ -185,6 +185,48 @@ fn rejection_confirmed(spec: &AppSpec, sig: &str) -> bool {
     false
 }
 
+/// A stable identification of rustc's complaint: error code + the message with identifiers of
+/// generated bindings (`v12`) and line numbers normalised.
+fn rustc_signature(stderr: &str) -> String {
+    let first = stderr.lines().find(|l| l.starts_with("error")).unwrap_or("error");
+    let mut out = String::new();
+    let mut chars = first.chars().peekable();
+    while let Some(c) = chars.next() {
+        if c == 'v' && chars.peek().is_some_and(|d| d.is_ascii_digit()) && !out.ends_with(|p: char| p.is_alphanumeric() || p == '_') {
+            out.push_str("v#");
+            while chars.peek().is_some_and(|d| d.is_ascii_digit()) {
+                chars.next();
+            }
+        } else if c.is_ascii_digit() && !out.ends_with(|p: char| p.is_alphabetic() || p == '[' || p == 'E' || p.is_ascii_digit()) {
+            out.push('#');
+        } else {
+            out.push(c);
+        }
+    }
+    out.chars().take(110).collect()
+}
+
+/// Compile one application alone: `Some((signature, rustc output))` when the compiler accepts it and
+/// rustc rejects the generated SDK.
+fn sdk_rejected_alone(lane: &engine::Lane, spec: &AppSpec) -> Option<(String, String)> {
+    let opts = RoundOpts { want_individual: false, run_requests: false, solo: false };
+    let out = round::run_round(lane, std::slice::from_ref(spec), &opts, &|_| vec![]);
+    if out.infra_error.is_some() || !out.in_sdk.first().copied().unwrap_or(false) {
+        return None;
+    }
+    match &out.sdk_build {
+        Some(b) if !b.ok() => {
+            let errs: Vec<&str> = b.stderr.lines().filter(|l| l.starts_with("error")).collect();
+            if errs.is_empty() {
+                return None;
+            }
+            let start = b.stderr.find("error").unwrap_or(0);
+            Some((rustc_signature(&b.stderr), b.stderr[start..].to_string()))
+        }
+        _ => None,
+    }
+}
+
 fn count_regs(spec: &AppSpec) -> usize {
     let mut n = 0;
     spec.walk_regs(&mut |_, _| n += 1);
@@ -232,6 +274,28 @@ fn has_move_borrow_alternation(spec: &AppSpec) -> bool {
     false
 }
 
+/// Coverage labels for the less common shapes of a generated application.
+fn shape_labels(spec: &AppSpec) -> Vec<&'static str> {
+    let mut v = vec![];
+    if spec.types.iter().any(|t| t.view_of.is_some()) {
+        v.push("shape:type-holding-a-reference");
+    }
+    let used = |pred: &dyn Fn(usize, Mode) -> bool| spec.comps.iter().any(|c| c.inputs.iter().any(|(t, m)| pred(*t, *m))) || spec.types.iter().any(|ty| ty.inputs.iter().any(|(t, m)| pred(*t, *m)));
+    if used(&|t, m| spec.types[t].view_of.is_some() && m == Mode::Move) {
+        v.push("shape:type-holding-a-reference-taken-by-value");
+    }
+    if spec.types.iter().any(|t| t.view_of.is_some_and(|j| spec.types[j].clone_if_necessary == Some(true) && used(&|x, m| x == j && m == Mode::Move))) {
+        v.push("shape:reference-held-to-a-value-that-is-also-moved(clone-if-necessary)");
+    }
+    if used(&|_, m| m == Mode::Mut) {
+        v.push("shape:mutable-reference-injected");
+    }
+    if spec.note.contains("wild") {
+        v.push("class:wild");
+    }
+    v
+}
+
 fn nontrivial_c02(spec: &AppSpec) -> bool {
     let routes = model::routes(spec);
     routes.iter().any(|r| r.chain.len() >= 3 || r.nest_depth >= 2)
@@ -255,7 +319,7 @@ fn pipeline_family(mut chk: Check) -> ! {
     chk.ev.assume("docs generated with the installed `nightly` toolchain and locally built std/core/alloc JSON docs (rust-docs-json component is not installed)");
     let (n_rounds, k_per_round, n_lanes) = match (tier, prop.as_str()) {
         (Tier::Quick, "C02") => (9usize, 8usize, 3usize),
-        (Tier::Quick, _) => (6, 6, 3),
+        (Tier::Quick, _) => (9, 8, 3),
         (Tier::Thorough, "C02") => (150, 8, 6),
         (Tier::Thorough, _) => (90, 8, 6),
     };
@@ -278,11 +342,18 @@ fn pipeline_family(mut chk: Check) -> ! {
         .map(|r| {
             (0..k_per_round)
                 .map(|k| {
-                    let spec = genr::build_abiding(&strat.new_tree(&mut runner).unwrap().current()).spec;
+                    // outside C02 (whose class does not mention them) a fifth of the request-scoped types may be
+                    // injected as `&mut` into pre-/post-processing middlewares and handlers
+                    let ext = genr::Ext { mut_refs: prop != "C02" };
+                    let spec = genr::build_abiding_ext(&strat.new_tree(&mut runner).unwrap().current(), ext).spec;
                     let mix = seed ^ ((r * 64 + k) as u64).wrapping_mul(0x9e3779b97f4a7c15);
                     if k + 2 >= k_per_round {
                         // the last two applications of every round stress one pipeline stage (see genr::build_stage_stress)
                         genr::build_stage_stress(mix)
+                    } else if k % 4 == 1 && matches!(prop.as_str(), "C01" | "C03" | "C04") {
+                        // "wild": random edits of the ownership structure; the compiler may accept or reject,
+                        // what it accepts must compile (C01) and behave (C03, C04)
+                        genr::wildify(&spec, mix)
                     } else if k % 3 == 2 {
                         genr::apply_attr_styles(&spec, mix).spec
                     } else {
@@ -365,6 +436,9 @@ fn evaluate_round(chk: &mut Check, prop: &str, specs: &[AppSpec], out: &RoundOut
                 if nontrivial_c02(spec) {
                     chk.ev.nontrivial.insert(fnv(&serde_json::to_string(spec).unwrap()));
                 }
+                for l in shape_labels(spec) {
+                    chk.ev.label(l);
+                }
                 if chk.ev.samples.len() < 3 {
                     chk.ev.sample(json!({"verdict": "accepted", "app": spec_summary(spec)}));
                 }
@@ -384,20 +458,55 @@ fn evaluate_round(chk: &mut Check, prop: &str, specs: &[AppSpec], out: &RoundOut
         chk.ev.label_n("sub-apps:rejected", (n - accepted.len()) as u64);
         if let Some(b) = &out.sdk_build {
             if !b.ok() {
-                let errs: String = b.stderr.lines().filter(|l| l.starts_with("error")).take(5).collect::<Vec<_>>().join(" | ");
-                save_violation(
-                    chk,
-                    "sdk-compiles",
-                    &format!("sdk-does-not-compile:{}", errs.split(':').next().unwrap_or("error")),
-                    &format!("pavexc accepted the blueprint but the generated SDK does not compile:\n{}", b.stderr.chars().take(6000).collect::<String>()),
-                    &specs[accepted.first().copied().unwrap_or(0)],
-                    json!({"all_specs": specs, "accepted": accepted}),
-                );
+                // which sub-application(s) of the round does rustc reject? each accepted one is compiled alone
+                let lane = lane("shrink");
+                let mut culprits: Vec<(usize, String, String)> = vec![];
+                for k in &accepted {
+                    if let Some((sig, text)) = sdk_rejected_alone(&lane, &specs[*k]) {
+                        culprits.push((*k, sig, text));
+                    }
+                }
+                if culprits.is_empty() {
+                    // only the combination fails to compile
+                    let sig = rustc_signature(&b.stderr);
+                    save_violation(
+                        chk,
+                        "sdk-compiles",
+                        &format!("sdk-does-not-compile:{sig}"),
+                        &format!("pavexc accepted the blueprint but the generated SDK does not compile (only when the sub-applications are nested together):\n{}", b.stderr.chars().take(6000).collect::<String>()),
+                        &specs[accepted.first().copied().unwrap_or(0)],
+                        json!({"all_specs": specs, "accepted": accepted}),
+                    );
+                }
+                let mut seen_sigs = BTreeSet::new();
+                for (k, sig, text) in culprits {
+                    if !seen_sigs.insert(sig.clone()) {
+                        continue;
+                    }
+                    let full_sig = format!("sdk-does-not-compile:{sig}");
+                    if chk.known.open_entry("C01", &full_sig).is_some() {
+                        *chk.ev.known_hits.entry(full_sig).or_insert(0) += 1;
+                        continue;
+                    }
+                    let (small, used) = shrink::shrink(&specs[k], 14, &mut |cand| sdk_rejected_alone(&lane, cand).is_some_and(|(s2, _)| s2 == sig));
+                    let text = sdk_rejected_alone(&lane, &small).map(|x| x.1).unwrap_or(text);
+                    save_violation(
+                        chk,
+                        "sdk-compiles",
+                        &full_sig,
+                        &format!("pavexc accepted the blueprint but the generated SDK does not compile ({} compiler+rustc runs to shrink the application from {} to {} registrations; note: {}):\n{}", used, count_regs(&specs[k]), count_regs(&small), small.note, text.chars().take(5000).collect::<String>()),
+                        &small,
+                        json!({"k": k}),
+                    );
+                }
             } else {
                 for k in accepted {
                     let spec = &specs[k];
                     if has_move_borrow_alternation(spec) {
                         chk.ev.label("shape:move-borrow-move-borrow-in-one-stage");
+                    }
+                    for l in shape_labels(spec) {
+                        chk.ev.label(l);
                     }
                     if nontrivial_c02(spec) || spec.types.iter().any(|t| t.fallible.is_some()) {
                         chk.ev.nontrivial.insert(fnv(&serde_json::to_string(spec).unwrap()));
@@ -435,6 +544,9 @@ fn evaluate_round(chk: &mut Check, prop: &str, specs: &[AppSpec], out: &RoundOut
         let routes = model::routes(spec);
         let (_, index) = script_for(spec, k, with_failures);
         let mut sampled = false;
+        for l in shape_labels(spec) {
+            chk.ev.label(l);
+        }
         for (i, (_, ri, plan)) in index.iter().enumerate() {
             let Some(resp) = by_id.get(&(k, i)) else { continue };
             let route = &routes[*ri];
